@@ -51,6 +51,16 @@
 (*  R2 a mouse event is routed the same way along the chain root ->         *)
 (*     topmost child containing the point -> ... ; the deepest is the       *)
 (*     target.                                                              *)
+(*     R2t The statement orders overlapping children by z-order only: among *)
+(*     children of EQUAL z-index that contain the point, which one is on    *)
+(*     top is left open.  But "the chain of widgets under the pointer" is   *)
+(*     ONE chain for one drawn frame and one point: the chain a frame       *)
+(*     establishes under a resting pointer (its hover set) is the chain     *)
+(*     along which every mouse event at that point is routed until the next *)
+(*     frame, a mouse event at the point of the previous one is routed      *)
+(*     along the same chain, and a frame drawn again from the same tree and *)
+(*     layout under a resting pointer leaves the chain as it is (neither    *)
+(*     the pointer nor any widget moved: nobody is entered or left).        *)
 (*  R3 every focus command naming a widget other than the focused one       *)
 (*     yields exactly one focus-out to the old and one focus-in to the new  *)
 (*     widget (order between the two left open); naming the focused widget  *)
@@ -118,6 +128,17 @@ ChainFrom(T, L, w, px, py) ==       \* (px,py) relative to w's origin and inside
 (* chain of widgets under screen point (x,y); <<>> when outside the root *)
 HitChain(T, L, x, y) ==
   IF x >= 0 /\ y >= 0 /\ x < L[1].w /\ y < L[1].h THEN ChainFrom(T, L, 1, x, y) ELSE <<>>
+
+(* R2t: all chains under (x,y) when ties among equal z-indices are left open *)
+Tops(T, L, w, px, py) ==
+  LET kids == {k \in 1..T.n : T.parent[k] = w /\ In(L[k], px, py)}
+  IN {k \in kids : \A j \in kids : L[k].z >= L[j].z}
+RECURSIVE ChainsFrom(_, _, _, _, _)
+ChainsFrom(T, L, w, px, py) ==
+  IF Tops(T, L, w, px, py) = {} THEN {<<w>>}
+  ELSE UNION {{<<w>> \o c : c \in ChainsFrom(T, L, k, px - L[k].x, py - L[k].y)} : k \in Tops(T, L, w, px, py)}
+HitChains(T, L, x, y) ==
+  IF x >= 0 /\ y >= 0 /\ x < L[1].w /\ y < L[1].h THEN ChainsFrom(T, L, 1, x, y) ELSE {<<>>}
 
 (* ---- R1/R2: the route of an event whose chain (root..target) is ch ----------*)
 Route(T, ch) ==
@@ -263,9 +284,29 @@ St0 == [focus |-> 1, hover |-> {}, redraw |-> FALSE, refresh |-> FALSE, quit |->
 Notif == {"enter", "leave", "fin", "fout"}
 Sel(offers, S) == SelectSeq(offers, LAMBDA o : o.cls \in S)
 
+StepHover(st, e) == HoverFold(Sel(e.offers, {"enter", "leave"}), st.hover)
+
+(* R2t: the chains a mouse event at (x,y) may be routed along in the last drawn frame *)
+MouseChains(T, st, x, y) == HitChains(At(T, st.lay), T.lays[st.lay], x, y)
+(* the pointer rests at (x,y) and the chain under it in the last drawn frame is established (it is the hover set) *)
+Settled(T, st, x, y) == st.ptr = <<x, y>> /\ \E c \in MouseChains(T, st, x, y) : Range(c) = st.hover
+MouseWalk(T, disp, c) == IF c = <<>> THEN (IF disp = <<>> THEN "" ELSE "offer-extra-" \o disp[1].ph) ELSE WalkWhy(disp, Route(T, c))
+(* the chain the event is judged against: the established one; else one that explains the offers and the hover *)
+(* set; else (for the reason given) the one with the later sibling on top among equals                       *)
+MouseChain(T, st, e) ==
+  LET all   == MouseChains(T, st, e.in.x, e.in.y)
+      cands == IF Settled(T, st, e.in.x, e.in.y) THEN {c \in all : Range(c) = st.hover} ELSE all
+      disp  == Sel(e.offers, {e.in.cls})
+      ok1   == {c \in cands : MouseWalk(T, disp, c) = ""}
+      ok2   == {c \in ok1 : StepHover(st, e) = Range(c)}
+  IN IF ok2 # {} THEN CHOOSE c \in ok2 : TRUE
+     ELSE IF ok1 # {} THEN CHOOSE c \in ok1 : TRUE
+     ELSE IF Cardinality(cands) = 1 THEN CHOOSE c \in cands : TRUE
+     ELSE HitChain(At(T, st.lay), T.lays[st.lay], e.in.x, e.in.y)
+
 StepChain(T, st, e) ==
   CASE e.in.t \in {"key", "custom", "init"} -> PathTo(At(T, st.lay), st.focus)
-    [] e.in.t = "mouse" -> HitChain(At(T, st.lay), T.lays[st.lay], e.in.x, e.in.y)
+    [] e.in.t = "mouse" -> MouseChain(T, st, e)
     [] OTHER -> <<>>
 
 (* the start-up step ends with the first layout (no frame is drawn from it yet) *)
@@ -278,7 +319,6 @@ Held(st, e) == {st.focus} \cup {e.offers[i].w : i \in {j \in 1..Len(e.offers) : 
 RouteWhy(T, st, disp, f) ==
   IF ~Present(At(T, st.lay), T.lays[st.lay], f) THEN UndrawnWhy(T.caps, disp, f)
   ELSE WalkWhy(disp, Route(T, PathTo(At(T, st.lay), f)))
-StepHover(st, e) == HoverFold(Sel(e.offers, {"enter", "leave"}), st.hover)
 
 (* on one route a widget is a capturing ancestor at most once, and either the target or one bubbling ancestor *)
 Twice(disp) == \E i, j \in 1..Len(disp) : i < j /\ disp[i].w = disp[j].w /\ ((disp[i].ph = "cap") <=> (disp[j].ph = "cap"))
@@ -289,8 +329,7 @@ StepWhy(T, st, e) ==
       chain == StepChain(T, st, e)
       walk  == IF e.in.t \in {"key", "custom", "init"}
                THEN (IF \E f \in Held(st, e) : RouteWhy(T, st, disp, f) = "" THEN "" ELSE RouteWhy(T, st, disp, st.focus))
-               ELSE IF chain = <<>> THEN (IF disp = <<>> THEN "" ELSE "offer-extra-" \o disp[1].ph)
-               ELSE WalkWhy(disp, Route(T, chain))
+               ELSE MouseWalk(T, disp, chain)
       hv    == StepHover(st, e)
       want  == CASE e.in.t = "mouse" -> Range(chain)
                  [] e.in.t = "tfout" -> {}
@@ -326,18 +365,25 @@ Pending(items, p) ==
 
 FrameHover(st, e) == HoverFold(Sel(e.items, {"enter", "leave"}), st.hover)
 
+(* R2t: the hover sets a frame may leave behind.  No pointer: as before.  The same tree and layout as the frame  *)
+(* before under a resting pointer whose chain is established: that chain.  Else: any chain under the pointer.    *)
+FrameChains(T, st, e) == IF st.ptr = <<>> THEN {} ELSE HitChains(At(T, e.lay), T.lays[e.lay], st.ptr[1], st.ptr[2])
+FrameRests(T, st, e) == st.ptr # <<>> /\ e.lay = st.lay /\ \E c \in FrameChains(T, st, e) : Range(c) = st.hover
+FrameWants(T, st, e) ==
+  IF st.ptr = <<>> \/ FrameRests(T, st, e) THEN {st.hover}
+  ELSE {Range(c) : c \in FrameChains(T, st, e)}
+
 FrameWhy(T, st, e) ==
   LET offers == SelectSeq(e.items, LAMBDA o : o.cls # "draw")
       other  == SelectSeq(offers, LAMBDA o : o.cls \notin Notif)
-      chain  == IF st.ptr = <<>> THEN <<>> ELSE HitChain(At(T, e.lay), T.lays[e.lay], st.ptr[1], st.ptr[2])
-      want   == IF st.ptr = <<>> THEN st.hover ELSE Range(chain)
+      wants  == FrameWants(T, st, e)
       hv     == FrameHover(st, e)
   IN IF st.over THEN "frame-after-exit"
      ELSE IF e.items = <<>> \/ e.items[1].cls # "draw" THEN "frame-without-draw"
      ELSE IF other # <<>> THEN "foreign-offer"
      ELSE IF ~FocusJudge(At(T, e.lay), T.lays[e.lay], offers, st.focus, TRUE).ok THEN "focus-notifications"
      ELSE IF hv = {0} THEN "hover-alternation"
-     ELSE IF hv # want THEN "hover-set"
+     ELSE IF hv \notin wants THEN "hover-set"
      ELSE IF e.full >= 0 /\ st.nframes > 0 /\ (e.full = 1) # st.refresh THEN "refresh"
      ELSE ""
 
